@@ -327,6 +327,10 @@ namespace sqf::runtime
                     }
                 }
                 std::weak_ptr<context> context_create() { auto ptr = std::make_shared<context>(); m_contexts.push_back(ptr); return ptr; }
+                /// <summary>
+                /// Drops every loaded script. Only for the owner of a runtime that is not executing.
+                /// </summary>
+                void context_clear() { m_contexts.clear(); m_context_active = {}; }
                 context_iterator context_begin() { return m_contexts.begin(); }
                 context_iterator context_end() { return m_contexts.end(); }
 
